@@ -185,12 +185,20 @@ def judge_h2_followers(scn, out):
 def extract_release(p, m):
     """the release-path counterexamples that have a public-API replay: a closed connection handed
     back (delivered to a waiting request), or an open one not kept"""
+    ctx = p.ctx
+    if getattr(ctx, "finished_ready", False) and getattr(getattr(ctx, "conn", None), "last_ready", None) not in ("ok", "err"):
+        # the hand-back task gave up on a connection that never reported readiness: a busy, open connection
+        # re-enters the pool.  A real HttpConnection cannot show this (its is_open() is its readiness), so the
+        # replay uses its own PoolableConnection over the mock transport
+        return {"family": "pool_busy_handback", "idle_timeout_ms": 50, "wait_ms": 80}
     return {"family": "pool_closed_handback"}
 
 
 def judge_release(scn, out):
     if out.get("result", "").startswith(("panic", "crash")):
         return True
+    if scn.get("family") == "pool_busy_handback":
+        return out.get("busy_handout") == "1"
     claim = scn.get("claim", "")
     if "closed connection" in claim or "handed back" in claim or "before it was asked" in claim or "hand-back task" in claim:
         return any(out.get(k) != "200" for k in ("a", "c", "d"))
